@@ -1,6 +1,7 @@
 (* C04: closing pays exactly the position's equity; bad debt cannot be cashed out.  Statements only. *)
 From MP.Model Require Import Prelude U128 SInt Feed Vamm VammOps Token World Engine Runtime.
-From MP.Proofs Require Import Tactics SIntFacts EngineArith CloseFacts CloseTxFacts Scenario.
+From MP.Proofs Require Import Tactics SIntFacts EngineArith CloseFacts CloseTxFacts.
+From MP.Model Require Import Scenario.
 
 (* the margin arithmetic in mathematical integers: funding owed = (cumulative fraction - checkpoint)
    x size / D truncated; remaining margin = delta - funding + margin, negative part = bad debt *)
